@@ -1,6 +1,7 @@
 package main
 
 import (
+	"os"
 	"fmt"
 	"go/types"
 	"strings"
@@ -574,19 +575,39 @@ func (fe *FnExec) inlineCall(fr *frame, st *State, in ssa.Instruction, fv FuncV,
 func (fe *FnExec) lastCallRule(fr *frame, st *State, full []Val) {
 	for _, a := range full {
 		fv, ok := a.(FuncV)
+		if os.Getenv("GCV_DEBUG_CB") != "" {
+			fmt.Fprintf(os.Stderr, "lastCallRule arg %T ok=%v\n", a, ok)
+		}
 		if !ok || fv.Fn == nil || fv.Fn.Parent() == nil {
 			continue
 		}
+		preAll := st.clone()
+		// whatever heap / ghost state the literal may change (through what it captured or through the calls it
+		// makes) may have changed by the time the callee returns
+		for _, name := range sortedKeys(fe.eng.closureFootprint(fv.Fn)) {
+			if fe.heapSort[name] == "" {
+				fe.heapSort[name] = fe.eng.closureFootprint(fv.Fn)[name]
+				fe.heapGet(st, name, fe.heapSort[name])
+			}
+			fe.heapFresh(st, name)
+		}
 		con := fe.eng.contracts[fnKey(fv.Fn)]
+		if os.Getenv("GCV_DEBUG_CB") != "" {
+			fmt.Fprintf(os.Stderr, "lastCallRule closure %s con=%v\n", fnKey(fv.Fn), con != nil)
+			if con != nil {
+				fmt.Fprintf(os.Stderr, "  invs=%d ensures=%d quiet=%v\n", len(con.CbInvs), len(con.Ensures), fe.quiet)
+			}
+		}
 		if con == nil {
 			continue
 		}
+		preSt := preAll
 		// values of the captured cells before the call
 		before := map[string]Val{}
 		var cells []PtrV
 		for i, b := range fv.Bind {
 			if p, ok := b.(PtrV); ok && i < len(fv.Fn.FreeVars) {
-				before[fv.Fn.FreeVars[i].Name()] = fe.load(st, p)
+				before[fv.Fn.FreeVars[i].Name()] = fe.load(preSt, p)
 				cells = append(cells, p)
 			}
 		}
@@ -642,6 +663,20 @@ func (fe *FnExec) lastCallRule(fr *frame, st *State, full []Val) {
 		for _, en := range con.Ensures {
 			fe.assume(tImp(tAnd(st.pc, called), ctx.evalBool(en.X)), "last call of the closure satisfies its ensures "+en.Label)
 		}
+		// invariants of the literal: hold here, are kept by every call (proved in the literal's own unit), hold afterwards
+		for _, inv := range con.CbInvs {
+			ictx := &EvalCtx{fe: fe, st: preSt, old: preSt, binds: map[string]Val{}, pkg: fe.pkg, conFile: con.File, lazyFn: fv.Fn}
+			for k, v := range before {
+				ictx.binds[k] = v
+			}
+			ictx.atcall = ictx
+			fe.oblige(fr, fmt.Sprintf("closure[%s].inv:%s:init", fv.Fn.Name(), inv.Label), inv.Props, st.pc, ictx.evalBool(inv.X), fe.curInstr.Pos(), inv.Src)
+			actx := &EvalCtx{fe: fe, st: st, old: st, binds: map[string]Val{}, pkg: fe.pkg, conFile: con.File, lazyFn: fv.Fn, atcall: ictx}
+			for k, v := range after {
+				actx.binds[k] = v
+			}
+			fe.assume(tImp(st.pc, actx.evalBool(inv.X)), "invariant "+inv.Label+" of the closure holds after the callee returns")
+		}
 	}
 }
 
@@ -686,4 +721,66 @@ func writtenFreeVars(fn *ssa.Function) map[*ssa.FreeVar]bool {
 		}
 	}
 	return out
+}
+
+// closureFootprint: the heap maps (struct fields, ghost fields) that a function literal may modify, found by
+// executing it once from an arbitrary state (no obligations are generated).  Conservative: a map that is
+// modified anywhere is forgotten as a whole at the place the literal is handed to a callee.
+func (e *Engine) closureFootprint(fn *ssa.Function) map[string]string {
+	e.mu.Lock()
+	if fp, ok := e.footprints[fn]; ok {
+		e.mu.Unlock()
+		return fp
+	}
+	e.footprints[fn] = map[string]string{} // recursion guard
+	e.mu.Unlock()
+	fp := map[string]string{}
+	if len(fn.Blocks) > 0 {
+		con := e.contracts[fnKey(fn)]
+		prev := map[int]*loopInfo{}
+		var fe *FnExec
+		var fr *frame
+		for round := 0; round < 4; round++ {
+			fe = e.newExec(fn, true)
+			fr = fe.newFrame(fn, con, displayName(fnKey(fn)))
+			for _, li := range fr.loops {
+				if p := prev[li.ord]; p != nil {
+					li.havocCells, li.havocHeap, li.havocPaths = p.havocCells, p.havocHeap, p.havocPaths
+				}
+			}
+			fe.top = fr
+			fe.setupEntry(fr)
+			fe.runFunction(fr, fr.entry, fe.paramVals(fr), nil)
+			for _, li := range fr.loops {
+				prev[li.ord] = li
+			}
+			if !fe.changed {
+				break
+			}
+		}
+		for _, r := range fr.rets {
+			for name, t := range r.heap {
+				if strings.HasPrefix(name, "cap.") {
+					continue // the literal's own view of its captured variables
+				}
+				if t0, ok := fr.entry.heap[name]; !ok || t0 != t {
+					if !ok && t == sym(name+"@0") {
+						continue
+					}
+					fp[name] = fe.heapSort[name]
+				}
+			}
+		}
+		for _, li := range fr.loops {
+			for name, srt := range li.havocHeap {
+				if !strings.HasPrefix(name, "cap.") {
+					fp[name] = srt
+				}
+			}
+		}
+	}
+	e.mu.Lock()
+	e.footprints[fn] = fp
+	e.mu.Unlock()
+	return fp
 }
